@@ -8,7 +8,6 @@ import (
 	"sync/atomic"
 	"time"
 
-	"github.com/internetarchive/Zeno/internal/pkg/controler"
 	"github.com/internetarchive/Zeno/internal/pkg/reactor"
 	"github.com/internetarchive/Zeno/internal/pkg/stats"
 	"github.com/internetarchive/Zeno/internal/verif/vc"
@@ -76,7 +75,7 @@ func c01Child(scPath string) int {
 			rep.violation("pending-node-at-finish", fmt.Sprintf("seed %s reported finished while %d node(s) of its tree still await work: %v", seed.GetID(), len(pending), pending), map[string]any{"tree": seed.DrawTreeWithStatus()})
 		}
 	}
-	controler.Start()
+	pr.start(false)
 	verdict := pr.waitQuiescent(6500*time.Millisecond, 12*time.Second, 150*time.Second)
 	evs := pr.eventsCopy()
 	rep.Evaluations = 1
